@@ -19,6 +19,7 @@ import numpy as np
 import z3
 
 from symx import sreal as S
+from symx.gmath import LOGF, EXPF
 from symx import npproxy, xhrun
 from symx.series_tools import load_irispie, series_modules, tagged, float_series, cellmap, none_is_nan_patch
 from symx.concolic import model_values
@@ -64,6 +65,52 @@ def hull(cells):
         return None, None
     ss = [s for s, _ in cells]
     return min(ss), max(ss)
+
+
+# ---- scipy.signal.lfiltic / lfilter (compiled) stubbed by their documented contract for b = (1,): an all-pole recursion
+#      a[0] y[n] = x[n] - a[1] y[n-1] - ... - a[p] y[n-p], with the past outputs y[-1], y[-2], ... given MOST RECENT FIRST to lfiltic
+class _PastOutputs:
+    def __init__(self, past):
+        self.past = list(past)
+
+
+def _stub_lfiltic(b, a, y, x=None):
+    if tuple(b) != (1,) or x is not None:
+        raise NotImplementedError("stub covers b = (1,) without past inputs")
+    return _PastOutputs(np.asarray(y, dtype=object).reshape(-1))
+
+
+def _stub_lfilter(b, a, x, zi=None, axis=0):
+    if tuple(b) != (1,) or not isinstance(zi, _PastOutputs):
+        raise NotImplementedError("stub covers b = (1,) with initial conditions from lfiltic")
+    xs = list(np.asarray(x, dtype=object).reshape(-1))
+    out = []
+    for n_ in range(len(xs)):
+        acc = xs[n_]
+        for k_ in range(1, len(a)):
+            j = n_ - k_
+            prev = out[j] if j >= 0 else (zi.past[-j - 1] if -j - 1 < len(zi.past) else 0)
+            acc = acc - a[k_] * prev
+        out.append(acc / a[0] if a[0] != 1 else acc)
+    return np.array(out, dtype=object), None
+
+
+def _signal_stub_selftest():
+    """the stub against the real scipy.signal on floats (orders 1..3, with and without intercept)"""
+    import scipy.signal as sg
+    rng = np.random.default_rng(1)
+    n_checked = 0
+    for order in (1, 2, 3):
+        for _ in range(5):
+            a = (1.0,) + tuple(-rng.uniform(-0.5, 0.5, order))
+            past = rng.normal(size=order)
+            x = np.full(6, rng.normal())
+            want, _z = sg.lfilter((1,), a, x, zi=sg.lfiltic((1,), a, past))
+            got, _z2 = _stub_lfilter((1,), a, x, zi=_stub_lfiltic((1,), a, past))
+            if np.abs(np.asarray(got, dtype=float) - want).max() > 1e-12:
+                raise AssertionError("scipy.signal stub disagrees with scipy.signal")
+            n_checked += 1
+    return n_checked
 
 
 def state(x):
@@ -222,6 +269,39 @@ def ops_unary(ir, fr, xc):
                     x.fill_missing(method, *args)
                     return x
                 out.append((f"fill_missing({method}) {form}", impl, (lambda method=method: fill_oracle(method)), True))
+    # --- extrapolation by an autoregressive process: x_t = rho_1 x_{t-1} + ... + rho_p x_{t-p} + c on the span, initial conditions from the series
+    for (rhos, icpt, log, k0, k1) in (((Fraction(1, 2),), 0, False, xc.n, xc.n + 2), ((Fraction(1, 2), Fraction(-1, 4)), Fraction(1, 8), False, xc.n, xc.n + 2),
+                                      ((Fraction(1, 4), Fraction(1, 2), Fraction(-1, 8)), 0, False, xc.n - 1, xc.n + 1), ((Fraction(1, 2), Fraction(1, 4)), Fraction(1, 8), True, xc.n, xc.n + 1)):
+        if xc.n < len(rhos) + 1 or xc.miss:
+            continue
+        for form in ("function", "method"):
+            def impl(rhos=rhos, icpt=icpt, log=log, k0=k0, k1=k1, form=form):
+                x = X()
+                args = (tuple(float(r) for r in rhos), per(k0) >> per(k1))
+                kw = dict(intercept=float(icpt), log=log)
+                if form == "function":
+                    return ir.extrapolate(x, *args, **kw)
+                x.extrapolate(*args, **kw)
+                return x
+            def orc(rhos=rhos, icpt=icpt, log=log, k0=k0, k1=k1):
+                c = dict(x_cells)
+                for v in range(max(xc.nvar, 1)):
+                    for k in range(k0, k1 + 1):
+                        prev = [c.get((b + k - i, v)) for i in range(1, len(rhos) + 1)]
+                        if any(p_ is None for p_ in prev):
+                            raise KeyError("initial condition missing")
+                        if log:
+                            acc = S.const(S.float_fraction(float(icpt)))
+                            for r, p_ in zip(rhos, prev):
+                                acc = acc + S.float_fraction(float(r)) * LOGF(p_)
+                            c[(b + k, v)] = EXPF(acc)
+                        else:
+                            acc = S.const(S.float_fraction(float(icpt)))
+                            for r, p_ in zip(rhos, prev):
+                                acc = acc + S.float_fraction(float(r)) * p_
+                            c[(b + k, v)] = acc
+                return c
+            out.append((f"extrapolate(AR{len(rhos)}, intercept={float(icpt)}, log={log}, {k0}..{k1}) {form}", impl, orc, True))
     # --- the number of periods may be any integer type (numpy integers come out of every index computation)
     for k, form in ((np.int64(-1), "method"), (np.int32(2), "function"), (np.int64(-2), "diff"), (np.int64(-1), "index"), (np.int32(1), "index")):
         def impl(k=k, form=form):
@@ -422,7 +502,13 @@ def main(run):
     xhrun.run_harness(run, HARNESS, timeout=150, twin_timeout=60, finding_prefix="series:")
     proxy = npproxy.Proxy()
     xs, ys = _configs(run.tier)
-    with npproxy.installed(proxy, *mods, extra=[none_is_nan_patch(ir)]):
+    import scipy
+    from irispie.series import _extrapolate as _ex
+    run.extra["scipy_signal_stub_checks"] = _signal_stub_selftest()
+    run.stubs.append("scipy.signal.lfiltic/lfilter (compiled) in series._extrapolate -> pure all-pole recursion on objects, validated against scipy.signal on floats at every run")
+    _sig = npproxy.SubProxy(scipy.signal, {"lfiltic": _stub_lfiltic, "lfilter": _stub_lfilter})
+    _spx = npproxy.SubProxy(scipy, {"signal": _sig})
+    with npproxy.installed(proxy, *mods, extra=[none_is_nan_patch(ir), (_ex, "_sp", _spx)]):
         for fr in (("Q",) if run.tier == "quick" else ("Q", "I")):
             for xc in xs:
                 names_x = sorted(xc.make(ir, fr)[1])
